@@ -3,6 +3,8 @@ package main
 import (
 	"context"
 	"fmt"
+	"runtime"
+	"strings"
 	"sync/atomic"
 	"time"
 
@@ -127,6 +129,30 @@ func (lr *leaderRun) exec(s step) bool {
 	return true
 }
 
+// acksConsumed: no ack is queued in a stub stream, and every cursor's receive loop is blocked in the stub's Recv
+// (so none of them is between Recv and the end of the tracker's Ack), and no ProcessWrite is running.
+func (lr *leaderRun) acksConsumed() bool {
+	lr.rpc.mu.Lock()
+	for _, f := range lr.rpc.followers {
+		if len(f.acks) > 0 && f.ctx.Err() == nil {
+			lr.rpc.mu.Unlock()
+			return false
+		}
+	}
+	lr.rpc.mu.Unlock()
+	buf := make([]byte, 1<<20)
+	n := runtime.Stack(buf, true)
+	for _, g := range strings.Split(string(buf[:n]), "\n\n") {
+		if strings.Contains(g, "followerCursor).receiveAcks") && !strings.Contains(g, "main.(*followerStub).Recv") {
+			return false
+		}
+		if strings.Contains(g, "kv.(*db).ProcessWrite") && !strings.Contains(g, "main.(*parker).hook") {
+			return false
+		}
+	}
+	return true
+}
+
 // close stops the controller first (the tracker is closed, parked sync completions then complete with an
 // error instead of applying), only then lets the parked completions go.
 // macro is the step in the vocabulary of the model (Oxia.Crash.Driver), with what the tracker and the WAL
@@ -156,6 +182,9 @@ func (lr *leaderRun) macro(s step) string {
 }
 
 func (lr *leaderRun) close() {
+	// LeaderController.Close closes the DB without waiting for an acknowledgement that a cursor is still
+	// processing (which may apply a write): let the acks that were sent be consumed first.
+	waitFor(stepTimeout, lr.acksConsumed)
 	if lr.lc != nil {
 		lr.lc.Close()
 	}
